@@ -115,6 +115,18 @@ pub fn judge_session(rep: &LoopReport) -> Judged {
                     j.violations.push((c, format!("'{}': {}", x.line, d)));
                 }
                 let legal = pos.legal_moves().len();
+                if legal >= 2 && pos.piece_count() <= 7 {
+                    let all_lose = pos.legal_moves().iter().all(|m| {
+                        let q = pos.make(m);
+                        q.legal_moves().iter().any(|r| {
+                            let z = q.make(r);
+                            z.in_check() && z.legal_moves().is_empty()
+                        })
+                    });
+                    if all_lose {
+                        j.probes.add("go_on_position_lost_by_force", 1);
+                    }
+                }
                 if legal == 0 {
                     j.probes.add(if pos.in_check() { "go_on_mate_position" } else { "go_on_stalemate_position" }, 1);
                     if !x.output.iter().any(|l| l.trim() == "bestmove 0000") {
@@ -264,6 +276,8 @@ struct GuiState {
     phase: u8, // 0 = start game, 1 = send position, 2 = send go, 3 = read answer
     cost_node_ns: u64,
     explosive_game: bool,
+    /// the game starts from a position lost by force (every move allows mate in one)
+    lost_game: bool,
     earlier_roots: Vec<String>,
     /// (root, moves) of the games played so far in this process
     earlier_games: Vec<(String, Vec<String>)>,
@@ -300,6 +314,7 @@ pub fn generate_and_run(seed: u64) -> (Scenario, LoopReport) {
         phase: 0,
         cost_node_ns,
         explosive_game: false,
+        lost_game: false,
         earlier_roots: vec![],
         earlier_games: vec![],
         quit_sent: false,
@@ -330,7 +345,12 @@ pub fn generate_and_run(seed: u64) -> (Scenario, LoopReport) {
                     g.explosive_game = g.rng.chance(1, 8);
                     // start: startpos, a playout FEN, an edge position, an explosive one,
                     // or an earlier game's start (stale tables)
-                    let (root, pos) = if g.explosive_game {
+                    g.lost_game = false;
+                    let lost = if !g.explosive_game && g.rng.chance(1, 10) { gen::lost_by_force_position(&mut g.rng) } else { None };
+                    let (root, pos) = if let Some(p) = lost {
+                        g.lost_game = true;
+                        (format!("fen {}", crate::sworld::fen_for_search(&p)), p)
+                    } else if g.explosive_game {
                         let p = if g.rng.chance(1, 2) { Pos::from_fen(*g.rng.pick(gen::EXPLOSIVE_FENS)).unwrap() } else { gen::promotion_race(&mut g.rng) };
                         (format!("fen {}", crate::sworld::fen_for_search(&p)), p)
                     } else if g.lookalike.is_some() && g.rng.chance(1, 2) {
@@ -386,6 +406,10 @@ pub fn generate_and_run(seed: u64) -> (Scenario, LoopReport) {
                     }
                 }
                 1 => {
+                    // now and then something a GUI sends at any time
+                    if g.rng.chance(1, 12) {
+                        return Some(g.rng.pick(&["isready", "isready", "stop", "ponderhit", "setoption name Hash value 32", "debug off"]).to_string());
+                    }
                     g.phase = 2;
                     let mut s = format!("position {}", g.root);
                     if !g.moves.is_empty() {
@@ -398,6 +422,14 @@ pub fn generate_and_run(seed: u64) -> (Scenario, LoopReport) {
                     g.phase = 3;
                     if let Some(l) = lookalike_of(&mut g.rng, &g.pos) {
                         g.lookalike = Some(l);
+                    }
+                    if g.rng.chance(1, 15) {
+                        g.phase = 2;
+                        return Some("isready".to_string());
+                    }
+                    if g.lost_game && g.rng.chance(2, 3) {
+                        // deep enough to see the mate, and at least one completed iteration
+                        return Some(format!("go depth {}", g.rng.range(2, 3)));
                     }
                     return Some(gen_go(&mut g.rng, &g.pos, g.cost_node_ns, g.explosive_game));
                 }
@@ -581,7 +613,7 @@ pub fn run(ctx: &Ctx) -> i32 {
     });
     let ev = Evidence {
         level: "exploration",
-        rule: "One sim = one engine process lifetime: a simulated GUI plays 1-4 games (startpos, playout FENs, constructed mate/stalemate/only-move/promotion positions, promotion races; a third of the games without ucinewgame and revisiting earlier roots so that TT/killers/history are stale; one game in five takes up an earlier game of the same process again with the same start and moves), sending position+go per move and playing the engine's answer plus a seeded reply on the rules model. go parameters: depth 1..4, movetime 0/1/small/large, wtime/btime[/winc/binc] in four regimes (ample, near the 5 s reserve, below it, zero) in random token order. The clock's per-sim cost model (1us..5ms per node, optional per-read cost, stall jumps, forced expiry at reads 1..6 of seeded searches) decides where each budget expires. Oracle per go: exactly one bestmove, last line, legal per the rules model and never 0000 when a legal move exists (the token printed for a position without legal moves is not prescribed by the property and not judged), no crash. Evaluations = go commands judged; a case is distinct by (piece count, legal-move count, budget, expired?, go kind).".into(),
+        rule: "One sim = one engine process lifetime: a simulated GUI plays 1-4 games (startpos, playout FENs, constructed mate/stalemate/only-move/promotion positions, positions lost by force (every move allows mate in one), promotion races; isready/stop/setoption lines at seeded places; a third of the games without ucinewgame and revisiting earlier roots so that TT/killers/history are stale; one game in five takes up an earlier game of the same process again with the same start and moves), sending position+go per move and playing the engine's answer plus a seeded reply on the rules model. go parameters: depth 1..4, movetime 0/1/small/large, wtime/btime[/winc/binc] in four regimes (ample, near the 5 s reserve, below it, zero) in random token order. The clock's per-sim cost model (1us..5ms per node, optional per-read cost, stall jumps, forced expiry at reads 1..6 of seeded searches) decides where each budget expires. Oracle per go: exactly one bestmove, last line, legal per the rules model and never 0000 when a legal move exists (the token printed for a position without legal moves is not prescribed by the property and not judged), no crash. Evaluations = go commands judged; a case is distinct by (piece count, legal-move count, budget, expired?, go kind).".into(),
         extra: serde_json::Map::new(),
         assumptions: vec![
             "a depth-limited go that hits the 3M-node step cap is inconclusive (counted), never a violation: C03 sets no time bound for go depth".into(),
